@@ -32,8 +32,13 @@ TMP = tempfile.mkdtemp(prefix="c06_")
 sys.path.insert(0, TMP)
 
 
+QUOTE = [False]
+
+
 def ann_src(t):
     k = t[0]
+    if k == "c" and QUOTE[0]:
+        return f'"{t[1]}"'            # a forward reference written as a string (no postponed evaluation in that module)
     if k in ("b", "e", "c"):
         return t[1]
     if k == "opt":
@@ -88,7 +93,8 @@ def build(model):
     uid = model["uid"]
     modname = f"c06_model_{uid}"
     enum_lines = [f"class {model['enum']}(enum.Enum):", "    A = 'a'", "    B = 'b'", ""]
-    lines = ["from __future__ import annotations", "import enum", "from dataclasses import dataclass, field", "from datetime import datetime",
+    QUOTE[0] = bool(model.get("quoted"))
+    lines = (["from __future__ import annotations"] if not QUOTE[0] else []) + ["import enum", "from dataclasses import dataclass, field", "from datetime import datetime",
              "from typing_extensions import Optional, List, Type", ""]
     if sum(map(ord, str(uid))) % 2:
         # the vocabulary lives in a module of its own (no mapped class next to it)
@@ -113,8 +119,8 @@ def build(model):
     return mod, {c["name"]: getattr(mod, c["name"]) for c in model["classes"]}
 
 
-def generate(classes_in_order):
-    d = ClassDiagram(classes_in_order)
+def generate(classes_in_order, diagram=None):
+    d = diagram if diagram is not None else ClassDiagram(classes_in_order)
     o = ORMatic(class_dependency_graph=d)
     o.make_all_tables()
     path = os.path.join(TMP, f"gen_{next(COUNTER)}.py")
@@ -153,6 +159,14 @@ def check(model, order_name, names):
     st, r2 = guarded(lambda: generate([classes[n] for n in names]))
     if st == "ok" and r2[0] != text:
         rep.fail("not-deterministic", "generating the same model twice gives different text", inp)
+    # ... also with two generators over ONE class diagram object (what a second generator produces does not depend on the first)
+    shared = ClassDiagram([classes[n] for n in names])
+    st, r3 = guarded(lambda: (generate(None, shared)[0], generate(None, shared)[0]))
+    if st == "exc":
+        rep.fail(f"generation-raised::shared-diagram::{type(r3).__name__}", f"two generators over one class diagram: {type(r3).__name__}: {str(r3)[:200]}", inp)
+    elif r3[0] != text or r3[1] != text:
+        rep.fail("not-deterministic::shared-diagram", f"two generators over one ClassDiagram object: the {'second' if r3[0] == text else 'first'} one writes a different module "
+                 f"({len(r3[1].splitlines())} vs {len(text.splitlines())} lines)", inp)
     gname = os.path.basename(path)[:-3]
     st, gen = guarded(lambda: importlib.import_module(gname))
     if st == "exc":
@@ -241,6 +255,19 @@ def scripted():
     out.append(dict(uid=uid, enum=E, classes=[dict(name=A, base=None, fields=[("oe", ("opt", ("e", E))), ("id_", ("b", "int")), ("type_", ("opt", ("b", "str")))]),
                                                dict(name=B, base=A, fields=[("assistant", ("c", A)), ("oe2", ("opt", ("e", E))), ("zeta", ("b", "int")), ("alpha", ("b", "str")), ("mid", ("list", ("b", "int")))]),
                                                dict(name=C, base=B, fields=[("deputy", ("opt", ("c", B))), ("owners_", ("list", ("c", A))), ("b2", ("b", "float")), ("a2", ("b", "bool"))])]))
+    # a long class name with several collections whose names share a long prefix: every collection keeps its OWN association table
+    uid = next(COUNTER)
+    A, B = f"M{uid}c0", f"M{uid}c1AutonomousMobileManipulationPlatformWithExtendedSensorSuite"
+    out.append(dict(uid=uid, enum=f"M{uid}E", classes=[dict(name=A, base=None, fields=[("n", ("b", "int"))]),
+                                                       dict(name=B, base=None, fields=[("mounted_sensors_front", ("list", ("c", A))), ("mounted_sensors_rear", ("list", ("c", A))),
+                                                                                       ("mounted_sensors_front_left_upper", ("list", ("c", A)))])]))
+    # a module WITHOUT postponed annotations whose self / mutual references are quoted inside generics
+    uid = next(COUNTER)
+    A, B, C = (f"M{uid}c{i}" for i in range(3))
+    out.append(dict(uid=uid, enum=f"M{uid}E", quoted=True,
+                    classes=[dict(name=A, base=None, fields=[("boss", ("opt", ("c", A))), ("reports", ("list", ("c", A))), ("unit", ("opt", ("c", C))), ("n", ("b", "int"))]),
+                             dict(name=B, base=A, fields=[("deputy", ("opt", ("c", A)))]),
+                             dict(name=C, base=None, fields=[("sub_units", ("list", ("c", C))), ("head", ("opt", ("c", B)))])]))
     return out
 
 
